@@ -150,12 +150,19 @@ def handleC07 (toks : List String) : String :=
           (if atoms = [] then "" else " " ++ " ".intercalate atoms) ++ " " ++ vel
   | "dump" :: rest =>
     run (do
-      let f ← pFmt; let ts ← pInt
+      let f ← pFmt
+      -- the time step as the system holds it: `-` no attribute, `none`, an integer, `r<p/q>` a real number
+      let tst ← tok
+      let sv ← (match tst with
+        | "-" => some StepVal.absent
+        | "none" => some StepVal.none
+        | t => if t.startsWith "r" then (parseRat? (t.drop 1).toString).map StepVal.real else t.toInt?.map StepVal.int : Option StepVal)
+      let ts := sv
       let np ← pNat
       let props ← pMany np do
         let name ← tok; let nd ← pNat; let dims ← pMany nd pNat; pure (name, dims)
       let s ← pSys; let u ← pUnits
-      pure (f, ts, props, s, u)) rest fun (f, ts, props, s, u) => showRes (writeDump s props u f ts)
+      pure (f, ts, props, s, u)) rest fun (f, ts, props, s, u) => showRes (writeDumpStep s props u f ts)
   | "pdump" :: rest =>
     run pHex rest fun t =>
       match parseDump t with
